@@ -37,3 +37,8 @@ func (g *Galaxy) VerifSetPolicyManager(pm *policy.PolicyManager) {
 func (g *Galaxy) VerifCleanIPtables(containerID string) error {
 	return g.cleanIPtables(containerID)
 }
+
+// VerifSetupIPtables is setupIPtables, the host-port synchronisation galaxy runs when it starts.
+func (g *Galaxy) VerifSetupIPtables() error {
+	return g.setupIPtables()
+}
